@@ -285,12 +285,40 @@ class KaniCrate:
         self.build_seconds = secs
         return self.built
 
-    def run(self, harness, timeout, mem_gb=12, extra=None, cbmc_args=None):
+    def symtab(self, harness):
+        """newest per-harness goto binary written by the last build"""
+        import glob
+        short = harness.split("::")[-1]
+        cands = [f for f in glob.glob(os.path.join(self.target, "kani", "*", "debug", "build", "*", "*", "out", "*.symtab.out"))
+                 if re.search(r"\d+%s\.symtab\.out$" % re.escape(short), f)]
+        return max(cands, key=os.path.getmtime) if cands else None
+
+    def unwindset(self, harness, rules):
+        """rules: [(regex over pretty function names, bound)] -> `id:bound,...` for --unwindset (recursion ids are function ids,
+        loop ids are <function id>.<n>; every loop 0..7 of a matching function is listed)"""
+        f = self.symtab(harness)
+        if not f:
+            return None
+        rc, out, _, _ = sh(["goto-instrument", "--list-goto-functions", f], timeout=120)
+        entries = []
+        for m in re.finditer(r"^(.*?) /\* (\S+?)[,\s]", out, re.M):
+            pretty, mangled = m.group(1), m.group(2)
+            for rx, bound in rules:
+                if re.search(rx, pretty):
+                    entries.append("%s:%d" % (mangled, bound))
+                    break
+        return ",".join(sorted(set(entries))) if entries else None
+
+    def run(self, harness, timeout, mem_gb=12, extra=None, cbmc_args=None, unwind_rules=None):
         cmd = ["cargo", "kani", "-Z", "stubbing", "--target-dir", self.target, "--harness", harness, "--exact"]
+        if unwind_rules:
+            us = self.unwindset(harness, unwind_rules)
+            if us:
+                cbmc_args = list(cbmc_args or []) + ["--unwindset", us]
         if extra:
             cmd += extra
         if cbmc_args:
-            cmd += ["--cbmc-args"] + cbmc_args
+            cmd += ["-Z", "unstable-options", "--cbmc-args"] + cbmc_args
         rc, out, secs, to = sh(cmd, cwd=self.dir, timeout=timeout, env=self.env(), mem_gb=mem_gb)
         return rc, out, secs, to
 
@@ -303,7 +331,7 @@ def run_harnesses(chk, crate, specs, logdir=None):
     def one(spec):
         ob = Ob(spec["name"], crate.kind, **spec.get("info", {}))
         rc, out, secs, to = crate.run(spec["name"], spec.get("timeout", 120), spec.get("mem_gb", 12),
-                                      spec.get("extra"), spec.get("cbmc_args"))
+                                      spec.get("extra"), spec.get("cbmc_args"), spec.get("unwind_rules"))
         ob.seconds = secs
         ob.log = out
         status, failed, covers, vt = parse_kani_output(out)
@@ -364,7 +392,7 @@ def playback(crate, harness, timeout=600, trace_cfg=True):
             if fn.endswith(".rs"):
                 p = os.path.join(root, fn)
                 txt = open(p, errors="replace").read()
-                if re.search(r"(fn %s\s*\()|(_harness!\(\s*%s\s*,)" % (re.escape(short), re.escape(short)), txt):
+                if re.search(r"(fn %s\s*\()|(!\s*[({]\s*%s\s*,)" % (re.escape(short), re.escape(short)), txt):
                     target_file = p
     if not target_file:
         res["panic"] = "harness source not found"
